@@ -1062,17 +1062,58 @@ func specPathInKids(target string, n *Node, x string, i int) bool {
 //@   invariant sofar: forall x string :: {inSet(maps[dirs], x)} inSet(maps[dirs], x) == (old(inSet(maps[dirs], x)) || x == fpJoin2(dv.targetDir, specNodePath(node)) || specPathInKids(dv.targetDir, node, x, $i))
 //@   invariant frame: forall m any :: {maps[m]} m != dirs ==> maps[m] == old(maps[m])
 
-// verifyRoot walks the real directory with fs.WalkDir and a callback closure; the higher-order library call is outside
-// the verified subset, so its contract is assumed: fsEntryUnder(d, x) — x is an entry (including d itself) that the
-// walk of directory d visits; fsMissingDir(d) — d does not exist.
-//@ logic fsEntryUnder(d string, x string) bool
+// verifyRoot: fs.WalkDir is modelled by gvc (one callback per entry of walkEntries(dir), or one callback with the
+// error when the directory is missing; see /verif/gvc/walkdir.go and trusted/fs.spec).
+// specEntryBefore: x is the joined path of one of the first i walked entries of directory d.
+//@ spec gtree.specEntryBefore
+//@   decreases i
+func specEntryBefore(d string, es []string, x string, i int) bool {
+	if i <= 0 || i > len(es) {
+		return false
+	}
+	return specEntryBefore(d, es, x, i-1) || x == fpJoin2(d, es[i-1])
+}
+
+// specInBefore: x is one of the first i elements of ks.
+//@ spec gtree.specInBefore
+//@   decreases i
+func specInBefore(ks []string, x string, i int) bool {
+	if i <= 0 || i > len(ks) {
+		return false
+	}
+	return specInBefore(ks, x, i-1) || x == ks[i-1]
+}
+
+//@ lemma gtree.lemmaInBeforeContains
+//@   nowf
+//@   requires rng: 0 <= i && i <= len(ks)
+//@   ensures sound: specInBefore(ks, x, i) ==> contains(ks, x)
+//@   ensures complete: (exists j int :: {ks[j]} 0 <= j && j < i && ks[j] == x) ==> specInBefore(ks, x, i)
+//@   trigger specInBefore(ks, x, i)
+//@   decreases i
+func lemmaInBeforeContains(ks []string, x string, i int) {
+	if i > 0 {
+		lemmaInBeforeContains(ks, x, i-1)
+	}
+}
+
+// fsEntryUnder(d, x): x is an entry the walk of directory d visits (d itself included).
+//@ pred fsEntryUnder(d string, x string): specEntryBefore(d, walkEntries(d), x, len(walkEntries(d)))
 //@ logic fsMissingDir(d string) bool
+
 //@ func gtree.defaultVerifierSimple.verifyRoot
-//@   assumed
 //@   requires nn: dv != nil && root != nil
 //@   modifies maps
-//@   ensures missingRoot [C08]: fsMissingDir(fpJoin2(dv.targetDir, specNodePath(root))) ==> result2 != nil && isType(result2, verifyError)
+//@   use lemma lemmaInBeforeContains
+//@   ensures missingRoot [C08]: fsMissingDir(fpJoin2(dv.targetDir, specNodePath(root))) ==> result2 != nil
 //@   ensures lists [C08]: !fsMissingDir(fpJoin2(dv.targetDir, specNodePath(root))) && result2 == nil ==> (forall x string :: {contains(result1, x)} {specPathIn(dv.targetDir, root, x)} contains(result1, x) == (specPathIn(dv.targetDir, root, x) && !fsEntryUnder(fpJoin2(dv.targetDir, specNodePath(root)), x))) && (forall x string :: {contains(result0, x)} {fsEntryUnder(fpJoin2(dv.targetDir, specNodePath(root)), x)} contains(result0, x) == (fsEntryUnder(fpJoin2(dv.targetDir, specNodePath(root)), x) && !specPathIn(dv.targetDir, root, x)))
+//@ loop gtree.defaultVerifierSimple.verifyRoot#walk
+//@   invariant dir: $dir == fpJoin2(dv.targetDir, specNodePath(root)) && dirsFilesystem != nil && dirsMarkdown != nil && dirsFilesystem != dirsMarkdown
+//@   invariant md: forall x string :: {inSet(maps[dirsMarkdown], x)} inSet(maps[dirsMarkdown], x) == specPathIn(dv.targetDir, root, x)
+//@   invariant seen: forall x string :: {inSet(maps[dirsFilesystem], x)} inSet(maps[dirsFilesystem], x) == specEntryBefore($dir, $entries, x, $i)
+//@   invariant extra: forall x string :: {contains(extraDirs, x)} contains(extraDirs, x) == (specEntryBefore($dir, $entries, x, $i) && !specPathIn(dv.targetDir, root, x))
+//@ loop gtree.defaultVerifierSimple.verifyRoot#1
+//@   invariant noex: forall x string :: {contains(noExistDirs, x)} contains(noExistDirs, x) == (specInBefore($keys, x, $i) && !inSet(maps[dirsFilesystem], x))
 
 //@ func gtree.defaultVerifierSimple.handleErr
 //@   requires nn: dv != nil
